@@ -383,6 +383,39 @@ theorem c05_not_closed_while_running {s : QState} (hr : Reachable s) (hne : s.wp
     Obs.closed ∉ s.log :=
   (shutInv_reachable hr).notClosed hne
 
+/-- **The stream is always flushed before it is closed — also when the shutdown timeout fires.**
+No hypothesis about `shutdown_timeout`: in every reachable state in which the stream has been
+dropped, the history is `pre ++ [flush, closed] ++ tail`: the call immediately before `closed` is a
+`flush` (so it comes after the last entry that was handed to the stream, however many were left
+behind by an expired timeout), the stream was closed once, and no stream call follows. -/
+theorem c05_close_preceded_by_flush {s : QState} (hr : Reachable s) (hcl : Obs.closed ∈ s.log) :
+    ∃ pre tail, s.log = pre ++ [Obs.flush, Obs.closed] ++ tail ∧ (∀ o ∈ tail, o.isStreamCall = false) ∧
+      Obs.closed ∉ pre := by
+  have hi := shutInv_reachable hr
+  by_cases hex : s.wpc = .exited
+  · exact hi.closedLast hex
+  · exact absurd hcl (hi.notClosed hex)
+
+/-- The same at the level of one step: whatever the final drain did (`Drained` or cut by the timeout),
+the last step of `shut_down` flushes, then drops the stream, and only then are the pending flush
+wakers released. -/
+theorem c05_shutdown_step_flushes {s : QState} (c : Clock) (hpc : s.wpc = .shutFlush) :
+    ∃ s', wstep s c = some s' ∧ s'.wpc = .exited ∧
+      s'.log = s.log ++ [.flush, .closed] ++ (s.waiting ++ s.sigs).map (Obs.completed · false) := by
+  unfold wstep; rw [hpc]; exact ⟨_, rfl, rfl, rfl⟩
+
+/-- Both ends of the final drain lead to that step: an empty ring, or the timeout firing at a multiple
+of 32 entries (and nothing else does: `shutHolding` otherwise goes on draining). -/
+theorem c05_final_drain_always_reaches_flush {s s' : QState} {c : Clock} (h : wstep s c = some s') :
+    (∀ n, s.wpc = .shutDrain n → s.ring = [] → s'.wpc = .shutFlush) ∧
+    (∀ e n, s.wpc = .shutHolding e n → (s'.wpc = .shutFlush ∨ s'.wpc = .shutDrain (n + 1))) := by
+  constructor
+  · intro n hpc hr
+    unfold wstep at h; rw [hpc] at h; simp [hr] at h; rw [← h]
+  · intro e n hpc
+    unfold wstep at h; rw [hpc] at h; simp at h; rw [← h]
+    dsimp only; split <;> simp
+
 theorem exited_step {s s' : QState} {ev : Ev} (hex : s.wpc = .exited) (h : step s ev = some s') :
     s'.wpc = .exited ∧ delivered s'.log = delivered s.log := by
   cases ev with
@@ -662,6 +695,9 @@ end Queue
 
 #print axioms Queue.c05_join_drains
 #print axioms Queue.c05_join_returns_after_exit
+#print axioms Queue.c05_close_preceded_by_flush
+#print axioms Queue.c05_shutdown_step_flushes
+#print axioms Queue.c05_final_drain_always_reaches_flush
 #print axioms Queue.c05_not_closed_while_running
 #print axioms Queue.c05_after_shutdown_discarded
 #print axioms Queue.c05_forget_path
